@@ -26,6 +26,9 @@ structure BkState where
   -- C25 oracle bookkeeping: payload (hex) of each client PUBLISH -> (effective expiry interval, a retained-store
   -- housekeeping ran strictly after its expiry, an in-flight housekeeping ran strictly after its expiry);
   -- (client id, payload) pairs of copies that have been sent
+  -- C11 (inbound) oracle bookkeeping: connection -> packet ids of the client's own QoS 2 publishes that the broker
+  -- accepted (PUBREC below 0x80) and has not completed (PUBCOMP) yet
+  inOpen : List (Nat × List Nat) := []
   msgs25 : List (String × Nat × Bool × Bool) := []
   sent25 : List (Str × String) := []
 
